@@ -57,8 +57,7 @@ Theorem C20_anb_index : forall a b i0 r,
 Proof. exact is_matched_spec. Qed.
 Print Assumptions C20_anb_index.
 
-Theorem C20_anb_no_panic : forall a b i0,
-  (Z.abs b <= 1073741823)%Z -> (0 <= i0 <= 1073741822)%Z -> is_matched a b i0 <> None.
+Theorem C20_anb_no_panic : forall a b i0, is_matched a b i0 <> None.
 Proof. exact is_matched_no_panic. Qed.
 Print Assumptions C20_anb_no_panic.
 
